@@ -18,12 +18,23 @@ def parseAtt (j : Json) : R Att := do
   | [a, t, m, k] => return { name := ← a.getStr?, target := ← optStr t, mandatory := ← m.getBool?, kind := ← k.getNat? }
   | _ => throw "bad att"
 
+def parsePair (j : Json) : R (String × String) := do
+  match (← (← arr j).mapM (·.getStr?)) with
+  | [a, b] => pure (a, b)
+  | _ => throw "bad pair"
+
+/-- optional field (absent in cases recorded before the fault injection existed): list of pairs -/
+def optPairs (j : Json) (k : String) : R (List (String × String)) :=
+  match j.getObjVal? k with
+  | .ok v => do (← arr v).mapM parsePair
+  | .error _ => pure []
+
 def parseMod (j : Json) : R ModCfg := do
   return { name := ← fldStr j "name", cls := ← parseCls (← fldStr j "cls"), exported := ← fldBool j "export",
            poll := ← fldBool j "poll", writes := ← fldStrs j "writes", atts := ← (← fldArr j "atts").mapM parseAtt,
            touchEarly := ← fldStrs j "te", touchInit := ← fldStrs j "ti", failEarly := ← fldBool j "fe",
            failInit := ← fldBool j "fi", uri := ← optStr (← fld j "uri"), scan := ← fldStrs j "scan",
-           delay := ← fldNat j "delay" }
+           delay := ← fldNat j "delay", writeFail := ← optPairs j "wfail" }
 
 def parseCfg (j : Json) : R Cfg := do
   let mods ← (← fldArr j "mods").mapM parseMod
@@ -77,11 +88,6 @@ def parseErr (j : Json) : R Err := do
   match (← (← arr j).mapM (·.getStr?)) with
   | [p, m, c] => pure ⟨p, m, c⟩
   | _ => throw "bad err"
-
-def parsePair (j : Json) : R (String × String) := do
-  match (← (← arr j).mapM (·.getStr?)) with
-  | [a, b] => pure (a, b)
-  | _ => throw "bad pair"
 
 def pairJson (p : String × String) : Json := jstrs [p.1, p.2]
 
